@@ -419,3 +419,18 @@ def gen_cases(rnd, n_models, per_model, toggles=True):
             except Exception:       # noqa
                 continue
             yield model, tyspec, v
+        # directed: an attribute holding the string that spells its own non-string default (None -> 'None', 7 -> '7')
+        for s in specs:
+            if s['kind'] != 'obj' or not s.get('registered', True):
+                continue
+            for p in s['params']:
+                if 'default' in p and not isinstance(p['default'], str) and admits_str(p['type']) and \
+                        not isinstance(p['default'], (list, dict)):
+                    try:
+                        v = gen_value(rnd, model, ('class', s['name']), depth=1)
+                        if type(v).__name__ == s['name']:
+                            setattr(v, p['name'], str(p['default']))
+                            v._verif_kwargs[p['name']] = str(p['default'])
+                            yield model, ('class', s['name']), v
+                    except Exception:       # noqa
+                        pass
